@@ -251,8 +251,15 @@ def serialize_range(value):
     if not value:
         return None
     elif isinstance(value, (list, tuple)):
-        return str(Range(*value))
-    elif isinstance(value, Range):
+        value = Range(*value)
+
+    if isinstance(value, Range):
+        start, end = value.start, value.end
+
+        if end is not None and (start is None or not 0 <= start < end):
+            # str() of such a range is not a byte-range-spec ("bytes=0--1")
+            raise ValueError(f"Bad range start:end: {start!r}-{end!r}")
+
         return str(value)
     else:
         assert isinstance(value, str)
